@@ -340,6 +340,12 @@ func (u *upstream) updateClients(clients map[string]*client) {
 
 func (u *upstream) handleRedirection(req *simpleRequest, resp *RespValue) {
 	err := strings.Split(string(resp.Text), " ")
+	// a redirection has the form "<MOVED|ASK> <slot> <host:port>", anything
+	// else is handed to the client as it is.
+	if len(err) != 3 || err[2] == "" {
+		req.SetResponse(resp)
+		return
+	}
 	hostAddr := err[2]
 	switch strings.ToLower(err[0]) {
 	case MOVED:
